@@ -241,6 +241,9 @@ def main(argv=None):
     violations = []        # (replay payload, suffix)
     notes = []
     evidence_path = os.path.join(EVIDENCE, f"{part}.json")
+    if args.replay:      # a replay is not a run of the check: keep the evidence of the last real run
+        os.makedirs(REPLAYS, exist_ok=True)
+        evidence_path = os.path.join(REPLAYS, f"{part}.replay-evidence.json")
     os.makedirs(EVIDENCE, exist_ok=True)
 
     # 1. build from the current tree
